@@ -109,6 +109,8 @@ func main() {
 		os.Exit(cmdCheck(os.Args[2:]))
 	case "dump":
 		os.Exit(cmdDump(os.Args[2:]))
+	case "modset":
+		os.Exit(cmdModset(os.Args[2:]))
 	default:
 		fmt.Println("unknown command")
 		os.Exit(2)
@@ -467,4 +469,36 @@ func (eng *Engine) updatesTaggedMap(fn *ssa.Function, tag string) bool {
 		}
 	}
 	return false
+}
+
+func cmdModset(args []string) int {
+	fs := flag.NewFlagSet("modset", flag.ExitOnError)
+	repo := fs.String("repo", "/repo", "")
+	verif := fs.String("verif", "/verif", "")
+	pkg := fs.String("pkg", "cmd/keymasterd", "")
+	fn := fs.String("func", "", "function key")
+	fs.Parse(args)
+	ld, err := Load(*repo, filepath.Join(*verif, "contracts/trusted"), nil)
+	if err != nil {
+		fmt.Println("BROKEN:", err)
+		return 2
+	}
+	eng := NewEngine(ld)
+	for p := range ld.byPath {
+		if strings.HasSuffix(p, *pkg) && ld.inRepo(p) {
+			if f := ld.lookupFunc(p, *fn); f != nil {
+				ms := eng.modSetOf(f)
+				fmt.Println("all:", ms.all, "hasExpr:", ms.hasExpr, "boxed:", ms.boxed, "named:", ms.named)
+				var keys []string
+				for k := range ms.descs {
+					keys = append(keys, k)
+				}
+				sort.Strings(keys)
+				for _, k := range keys {
+					fmt.Println("  ", k)
+				}
+			}
+		}
+	}
+	return 0
 }
